@@ -261,6 +261,16 @@ func c12Kinds() []c12Kind {
 			hk.Out = func(n int, t uint8, d []byte) []byte {
 				if t == 2 && !isHRR(d) {
 					if sp, ok := parseServerHello(d); ok {
+						if e := sp.find(41); e != nil {
+							// the hello did offer an identity (a resuming connection) and the server accepted
+							// it: the index is moved to one that was not offered (0 is the offered one)
+							if id == 0 {
+								hk.NoChoiceMade = true
+								return d
+							}
+							e.body = []byte{byte(id >> 8), byte(id)}
+							return sp.build()
+						}
 						sp.exts = append(sp.exts, shExt{41, []byte{byte(id >> 8), byte(id)}})
 						return sp.build()
 					}
@@ -434,6 +444,11 @@ func c12Scenario(clients []gridClient) *explore.Scenario {
 				OnConns: func(u *tls.UConn, s *tls.Conn) { cleanup = installHooks(s, hk) }})
 			if cleanup != nil {
 				cleanup()
+			}
+			if hk.NoChoiceMade {
+				r.Obs = "value-was-offered-after-all"
+				r.Count("choice_not_made", 1)
+				return
 			}
 			if k.name == "tls13-suite" || k.name == "tls12-suite" {
 				// the suite is forced through the server's selection hook; a server that resumes a
